@@ -399,6 +399,8 @@ def units(prop, tier):
         out.append(pyvc_unit(prop, 'chacha20._encrypt', lambda: registry('chacha', state='any'), [q + '_encrypt'], weight=2))
         for i in range(3):
             # one unit per automaton state (spec.fsm.reach('CLASSIC')[i]); everything else symbolic
+            if i > 0 and prop not in ('C10', 'C17') and tier == 'quick':
+                continue        # (the value / frame clauses do not depend on the state: states 1, 2 run under C10, C17 and in the thorough tier)
             out.append(pyvc_unit(prop, 'chacha20.encrypt_decrypt.state%d' % i, lambda i=i: registry('chacha', state=i), [q + 'encrypt', q + 'decrypt']))
     if prop in ('C09', 'C10', 'C17'):
         out.append(pyvc_unit(prop, 'chacha20._encrypt.readonly_output', lambda: registry('chacha', 'ro', state='any'), [q + '_encrypt']))
@@ -423,3 +425,29 @@ def units(prop, tier):
             out.append(pyvc_unit(prop, 'chacha20.init.types%d' % i, lambda tp=tp: registry('chacha', 'init', types=tp), [q + '__init__'], weight=2))
         out.append(pyvc_unit(prop, 'chacha20.new', lambda: registry('chacha', 'new'), [CH + 'new'], weight=3))
     return out
+
+
+# ======================================================================================================================
+# Notes
+#
+# OBSERVATION: the last block of the ChaCha20 key stream is never produced (seek(64 * (2**32 - 1)) with a 12-byte nonce ->
+#   ValueError "Error 10"; encrypting into it -> ValueError): src/chacha20.c reports ERR_MAX_DATA when the counter wraps while
+#   producing that block.  Conservative w.r.t. RFC 8439, no repeated block; the contracts state exactly this limit
+#   (chacha_limit).  Same `_next`-before-argument-check observation as in contracts/modes_classic.py.
+# OBSERVATION: ARC4Cipher.__init__ ignores positional arguments after `drop` and unknown keywords; Salsa20 has no key-stream
+#   length check (2**70 bytes; not reachable).
+#
+# Strength check (tools/mut.py):
+#   ChaCha20.py  if block_high > 0xFFFFFFFFF  (one F more)                 exit 1 @ ChaCha20Cipher.seek.call_pre.0_block_high_and_block_high_4294967296  (C11)
+#   ChaCha20.py  divmod(position, 128)                                     exit 1 @ ChaCha20Cipher.seek.ensures.honoured, raises_iff.ValueError.*
+#   ChaCha20.py  if position < -64                                         exit 1 @ ChaCha20Cipher.seek.call_pre.0_block_high_...
+#   ChaCha20.py  RENAME-like refactoring (block_number >> 32) parenthesised  exit 0
+#   ChaCha20.py  self._next = ("encrypt",) -> ("encrypt", "decrypt")       exit 1 @ ChaCha20Cipher.encrypt.ensures.next                 (C10)
+#   ChaCha20.py  len(nonce) not in (8, 12, 16, 24)                         exit 1 @ ChaCha20.new.call_pre.len_nonce_8_or_len_nonce_12_or_len_nonce_24  (C02)
+#   ChaCha20.py  nonce = b'\x00' * 4 + nonce[12:20]                        exit 1 @ ChaCha20Cipher.__init__.ensures.xchacha
+#   ChaCha20.py  _HChaCha20(key, nonce[8:24])                              exit 1 @ ChaCha20Cipher.__init__.ensures.xchacha
+#   ChaCha20.py  self.nonce = _copy_bytes(None, 12, nonce)                 exit 1 @ ChaCha20Cipher.__init__.ensures.nonce, ensures.valid
+#   ChaCha20.py  create_string_buffer(len(plaintext) // 2)                 exit 1 @ ChaCha20Cipher._encrypt.call_pre.isinstance_out_...  (C17)
+#   Salsa20.py   if len(nonce) != 12                                       exit 1 @ Salsa20Cipher.__init__.raises_iff.ValueError.only_if
+#   Salsa20.py   decrypt drops output=                                     exit 1 @ Salsa20Cipher.decrypt.ensures.returns, ensures.value (C09)
+#   ARC4.py      if ndrop > 1                                              exit 1 @ ARC4Cipher.__init__.ensures.drop
